@@ -46,7 +46,7 @@ def run(sid):
     finally:
         sh(['git', '-C', repo, 'checkout', '--', '.']); sh(['git', '-C', repo, 'clean', '-fdq'])
         lanes.put(repo)
-sids = [d.name for d in sorted(SEEDED.iterdir()) if (d / 'patch.diff').exists() and (pat in d.name if not pat.startswith("=") else d.name == pat[1:])]
+sids = [d.name for d in sorted(SEEDED.iterdir()) if (d / 'patch.diff').exists() and any((q in d.name if not q.startswith("=") else d.name == q[1:]) for q in pat.split(","))]
 with ThreadPoolExecutor(LANES) as ex:
     for sid, caught, msg in ex.map(run, sids):
         print(f'{sid}: caught={caught} {msg}', flush=True)
